@@ -20,6 +20,9 @@ CallEvent(c) ==
     [] c = "close" -> [ev |-> "call", api |-> "close", t |-> now, control |-> FALSE, op |-> 0, payload |-> <<>>, status |-> 1000, reason |-> <<98>>, timeout |-> 1000]
     [] c = "close_bad" -> [ev |-> "call", api |-> "close", t |-> now, control |-> FALSE, op |-> 0, payload |-> <<>>, status |-> 70000, reason |-> <<>>, timeout |-> 1000]
     [] c = "send_close" -> [ev |-> "call", api |-> "send_close", t |-> now, control |-> FALSE, op |-> 0, payload |-> <<>>, status |-> 1001, reason |-> <<>>, timeout |-> 0]
+    [] c = "settimeout" -> [ev |-> "call", api |-> "settimeout", t |-> now, control |-> FALSE, op |-> 0, payload |-> <<>>, status |-> 0, reason |-> <<>>, timeout |-> 0, value |-> 5000]
+    [] c = "gettimeout" -> [ev |-> "call", api |-> "gettimeout", t |-> now, control |-> FALSE, op |-> 0, payload |-> <<>>, status |-> 0, reason |-> <<>>, timeout |-> 0, value |-> 0]
+    [] c = "abort" -> [ev |-> "call", api |-> "abort", t |-> now, control |-> FALSE, op |-> 0, payload |-> <<>>, status |-> 0, reason |-> <<>>, timeout |-> 0, value |-> 0]
     [] c = "shutdown" -> [ev |-> "call", api |-> "shutdown", t |-> now, control |-> FALSE, op |-> 0, payload |-> <<>>, status |-> 0, reason |-> <<>>, timeout |-> 0]
 
 Flags(s) == [connected |-> s.connected, sock_none |-> ~s.sockOpen, tclosed |-> s.tclosed]
@@ -28,9 +31,13 @@ OutEvent(s) ==
   LET d == Head(s.due) IN
   CASE d.k = "send" -> [ev |-> "tsend", bytes |-> ClientFrame(1, d.op, d.data, Key0)]
     [] d.k = "tclose" -> [ev |-> "tclose"]
+    [] d.k = "tsettimeout" -> [ev |-> "tsettimeout", value |-> d.op]
+    [] d.k = "tshutdown" -> [ev |-> "tshutdown"]
+    [] d.k = "retval" -> [ev |-> "ret", op |-> 99, fin |-> 99, data |-> <<>>, kind |-> "none", t |-> now, value |-> d.op,
+                          connected |-> s.connected, sock_none |-> ~s.sockOpen]
     [] d.k = "ret" -> [ev |-> "ret", op |-> d.op, fin |-> d.fin, data |-> d.data, kind |-> "frame", t |-> now,
                        connected |-> s.connected, sock_none |-> ~s.sockOpen]
-    [] d.k = "raise" -> [ev |-> "raise", cls |-> ClsOf(d.cls), doc |-> d.cls # "ValueError", terr |-> FALSE, t |-> now,
+    [] d.k = "raise" -> [ev |-> "raise", cls |-> ClsOf(d.cls), doc |-> d.cls \notin {"ValueError", "Transport"}, terr |-> d.cls = "Transport", t |-> now,
                          connected |-> s.connected, sock_none |-> ~s.sockOpen, tclosed |-> s.tclosed \/ ~s.sockOpen]
 
 \* releasing the transport on loss happens before the exception is seen
@@ -50,9 +57,10 @@ Events(s) ==
        LET short == Shortage(s)
            req == IF short = 0 THEN 1 ELSE Min(16384, short)
            avail == Len(s.stream) - s.taken
-       IN (IF avail > 0 THEN {[ev |-> "trecv", req |-> req, got |-> Min(req, avail), pos |-> s.taken]} ELSE {})
-          \cup (IF avail = 0 /\ eofAfter THEN {[ev |-> "teof", req |-> req]} ELSE {})
-          \cup (IF avail = 0 /\ ~eofAfter THEN {[ev |-> "ttimeout", req |-> req]} ELSE {})
+       IN IF s.aborted THEN {[ev |-> "teof", req |-> req]}      \* the transport was shut down: reads end at once
+          ELSE (IF avail > 0 THEN {[ev |-> "trecv", req |-> req, got |-> Min(req, avail), pos |-> s.taken]} ELSE {})
+               \cup (IF avail = 0 /\ eofAfter THEN {[ev |-> "teof", req |-> req]} ELSE {})
+               \cup (IF avail = 0 /\ ~eofAfter THEN {[ev |-> "ttimeout", req |-> req]} ELSE {})
 
 Init == /\ \E sc \in Scripts : st = ConnInit(sc[1]) /\ eofAfter = sc[2]
         /\ ncalls = 0 /\ now = 0
